@@ -56,9 +56,9 @@ Proof.
 Qed.
 
 (* bytesAllocated += sz at the end of device::malloc *)
-Lemma inv_bytes_add s ths t th0 rest sz :
-  Inv s ths -> nth_error ths t = Some th0 -> cur th0 = PMal3 sz ->
-  Inv (set_bytes s (bytes s + sz)%Z) (upd_nth ths t (at_pc PMalEnd rest)).
+Lemma inv_bytes_add s ths t th0 rest sz dst :
+  Inv s ths -> nth_error ths t = Some th0 -> cur th0 = PMal3 sz dst ->
+  Inv (set_bytes s (bytes s + sz)%Z) (upd_nth ths t (at_pc (PMalEnd dst) rest)).
 Proof.
   intros HI Ht Hc. destruct HI. constructor; simpl_st; try assumption.
   - eapply local_upd; [eassumption|exact I|]. intros i p Hn Ha.
